@@ -33,7 +33,6 @@ func (flavor) Impl(ops []lc.Op, obs []lc.StepObs) string {
 func (flavor) Oracle(ops []lc.Op, obs []lc.StepObs) []core.Failure {
 	var fails []core.Failure
 	var running *lc.Cfg
-	leaked := map[int][]int{} // sockets the known finding F2 accounts for: address → tags
 	for i, o := range obs {
 		op := ops[i]
 		attempted := lc.Attempted(op, running)
@@ -59,10 +58,6 @@ func (flavor) Oracle(ops []lc.Op, obs []lc.StepObs) []core.Failure {
 			}
 			fails = append(fails, core.Failure{Class: cls,
 				What: fmt.Sprintf("op %d (%s → %s): GET /config/ returns %s, the running configuration is %s", i, op, o.Res, o.Raw, wantRaw)})
-		}
-		// F2 bookkeeping: the HTTP app's own Start failed at listener k ≥ 1
-		for a, t := range lc.F2Leak(attempted, o) {
-			leaked[a] = append(leaked[a], t...)
 		}
 		// nothing of a configuration that is not running may be left: every module that was
 		// provisioned for it has been cleaned up, its context is cancelled, and the usage-pool
@@ -90,18 +85,6 @@ func (flavor) Oracle(ops []lc.Op, obs []lc.StepObs) []core.Failure {
 		}
 		want := lc.WantSocks(running)
 		if lc.SocksEqual(o, want) {
-			continue
-		}
-		withLeak := map[int][]int{}
-		for a, t := range want {
-			withLeak[a] = append(withLeak[a], t...)
-		}
-		for a, t := range leaked {
-			withLeak[a] = append(withLeak[a], t...)
-		}
-		if len(leaked) > 0 && lc.SocksEqual(o, withLeak) {
-			fails = append(fails, core.Failure{Class: "http-start-bind-failure-leaves-earlier-listeners-serving",
-				What: fmt.Sprintf("op %d (%s → %s): sockets %s; the running configuration only has %s — the extra ones are listeners the HTTP app of a rejected configuration bound before its Start failed", i, op, o.Res, lc.ShowSocks(o), lc.ShowWant(want))})
 			continue
 		}
 		cls := "sockets-differ-after-rejected-attempt"
